@@ -63,20 +63,31 @@ Section Top.
   Qed.
 
   (** Admission, for whatever is served in any mode: the reference representation's duration is
-      [LoopDurMS] milliseconds exactly, and every representation of the reference content type
-      (and every pre-encrypted one) lasts [LoopDurMS] ms (truncated). *)
+      [LoopDurMS] milliseconds exactly; every representation has a contiguous table; every
+      representation other than audio next to a non-audio reference has exactly the duration of the
+      reference (in cross-multiplied ticks); pre-encrypted audio lasts [LoopDurMS] ms. *)
   Theorem served_asset_admission md l c A c' p a :
     discover md l c = Ok (A, c') -> In (p, a) A ->
     exists k ref,
       a_ref a = Some k /\ lookup k (a_reps a) = Some ref /\
       dur_ms ref = Ok (a_loop a) /\
       (admission_range ref -> 1000 * rduration (r_segs ref) = a_loop a * r_mediats ref) /\
-      (forall k' r, In (k', r) (a_reps a) -> (r_ctype r = r_ctype ref \/ r_preenc r = true) -> dur_ms r = Ok (a_loop a)).
+      (forall k' r, In (k', r) (a_reps a) -> rep_admitted ref (a_loop a) r).
   Proof.
     intros H Hin. destruct (discover_served_admitted _ _ _ _ _ _ _ H Hin) as [a0 Ha0].
     destruct (consolidate_admitted _ _ Ha0) as (k & ref & H1 & H2 & H3 & H4 & H5 & H6).
-    exists k, ref. rewrite H3. repeat split; auto.
-    intros Hr. apply admission_exact; assumption.
+    exists k, ref. rewrite H3. split; [exact H1|]. split; [exact H2|]. split; [exact H4|].
+    split; [|exact H6]. intros Hr. apply admission_exact; assumption.
+  Qed.
+
+  (** The loaded segment table of every served representation is contiguous (whatever the
+      addressing mode, whatever the start mode). *)
+  Theorem served_tables_contiguous md l c A c' p a k r :
+    discover md l c = Ok (A, c') -> In (p, a) A -> In (k, r) (a_reps a) ->
+    contiguous (segs (trep r)).
+  Proof.
+    intros H Hin Hr. destruct (served_asset_admission _ _ _ _ _ _ _ H Hin) as (k0 & ref & _ & _ & _ & _ & Hall).
+    apply (Hall k r Hr).
   Qed.
 
   (** The admission equation in the form the timeline theorems (Timeline.wf: wf_loop) assume it. *)
@@ -92,6 +103,16 @@ Section Top.
     rewrite <- (rduration_repDuration ref Hne Hr). apply H4. exact Ha.
   Qed.
 
+  (** loadAsset is atomic: when it returns an error for an MPD, the asset is exactly as before
+      (no MPD registered with some of its representations missing). *)
+  Theorem load_asset_atomic md apath name o a c a' c' e :
+    load_asset B enc dec md apath name o a c = Ok (a', c', Some e) -> a' = a.
+  Proof.
+    destruct o as [| |sets]; cbn [Cache.load_asset]; intros H; try (inversion H; reflexivity).
+    match type of H with (do r <- ?T; _) = _ => destruct T as [[[x1 c1] e1]| |] end; cbn [bind] in H; try discriminate.
+    destruct e1; inversion H; reflexivity.
+  Qed.
+
   (** End to end: start in write mode over an empty metadata directory, then start from the
       directory it left (or from any part of it: files may be missing): same assets, same stored
       fields, same admission decisions, same start-up errors as a scanning server. *)
@@ -103,8 +124,8 @@ Section Top.
     all_rel B c c0 (discover mode_read l c) (discover mode_scan l c0).
   Proof.
     intros Hcons Hts Hw Hsub. apply discover_cache_eq_scan; [exact dec_enc|].
-    apply (good_D_cache_good B enc D); auto.
-    assert (Hg : good_D B enc D cw).
+    apply (good_D_cache_good B enc dec D); auto.
+    assert (Hg : good_D B enc dec D cw).
     { eapply write_makes_good; eauto. intros a id. left. reflexivity. }
     intros a id. destruct (Hsub a id) as [->| ->]; [left; reflexivity|apply Hg].
   Qed.
